@@ -94,6 +94,18 @@ def gen(rng, tier, index):
     if rng.random() < 0.3:
         n = rng.choice([3, 5, 7, 7, 12, 25, 40]) if tier == "thorough" else rng.choice([3, 5, 7, 7, 12, 20])
         ops = [_gen_op(rng, universe, True, True) for _ in range(n)]
+        if rng.random() < 0.3:
+            # scenario bias: a chain v -> y -> x with methods on x and y, an answer for v cached,
+            # then a table change that must invalidate it (preference, new/removed method, edge)
+            v, y, x = rng.sample(universe, 3)
+            if x in CLS or y in CLS:
+                v, y, x = (rng.sample(CLS, 1) + rng.sample(KWS, 2)) if rng.random() < 0.5 else rng.sample(KWS, 3)
+            chain = [["derive", v, y], ["derive", y, x], ["add", x], ["add", y]]
+            rng.shuffle(chain)
+            change = rng.choice([["prefer", x, y], ["remove", y], ["underive", v, y], ["add", v], ["underive", y, x],
+                                 ["prefer", y, x], ["add", DEFAULT]])
+            k0 = rng.randrange(0, max(1, len(ops) // 2))
+            ops = ops[:k0] + chain + [change] + ops[k0:]
         return dict(base, mode="seq", ops=ops)
     if rng.random() < 0.35:
         # scenario bias: one edge x->y toggled while callers keep asking for x (and y has a method),
